@@ -48,6 +48,51 @@ def build(reg):
         u.prop = 'C01'
         out.append(u)
     out += [Watch('pym/bob/builder.py', 'LocalBuilder.__getIncrementalVariantId', 'incremental variant-id from stored dependency ids'),
-            Watch('pym/bob/builder.py', 'compareDirectoryState', 'checkout state comparison'),
             Watch('pym/bob/cmds/build/state.py', 'DevelopDirOracle.__writeBack', 'develop directory assignment (see C16)')]
+    out += compare_state(reg)
     return out
+
+
+# ---------------------------------------------------------------------------------------------------------------------
+# compareDirectoryState (typed, strict): decides "recipe changed" for checkout steps.  Proved: True exactly if both states
+# have the same keys apart from the build-only sub-state and agree on the first component (the digest) of every such key --
+# in particular on the CHECKOUT_STATE_VARIANT_ID key, so a changed checkout variant-id is always a difference.
+def compare_state(reg):
+    import ast
+    from pyvc.core import Unsupported
+    F = 'pym/bob/builder.py'
+    KEY = OpaqueT('StateKey'); VAL = OpaqueT('StateValue'); DIG = OpaqueT('StateDigest')
+    KZ = sort_of(KEY)
+    K_VID = z3.Const('KEY_variant_id_None', KZ); K_BO = z3.Const('KEY_build_only_1', KZ)
+    FIRST = z3.Function('STATE_first_component', sort_of(VAL), sort_of(DIG))
+    DT = DictT(KEY, VAL); RT = DictT(KEY, DIG); OV = OptT(VAL); OD = OptT(DIG)
+    reg.trusted += ['checkout state keys: None (variant-id), 1 (build-only sub-state) and directory names are pairwise different values of one abstract key sort; v[0] is an uninterpreted function of the state value']
+    reg.constants['bob.builder.CHECKOUT_STATE_BUILD_ONLY'] = lambda e, st: V(KEY, K_BO)
+    reg.constants['bob.builder.CHECKOUT_STATE_VARIANT_ID'] = lambda e, st: V(KEY, K_VID)
+    reg.axioms['always:state-keys-distinct'] = lambda: [K_VID != K_BO]
+    base_comp = reg.comp_hook
+    def comp(e, st, node, kind):
+        src = ast.unparse(node).replace(' ', '')
+        for name in ('left', 'right'):
+            if kind == 'dict' and src == '{d:v[0]ford,vin%s.items()ifd!=CHECKOUT_STATE_BUILD_ONLY}' % name:
+                D_ = e.deref(st, st.frames[-1][name]); k = z3.Const(fresh_name('k'), KZ)
+                R = z3.Lambda([k], z3.If(z3.And(k != K_BO, z3.Not(opt_is_none(OV, z3.Select(D_, k)))), opt_some(OD, FIRST(opt_val(OV, z3.Select(D_, k)))), opt_none(OD)))
+                e.assume_note('dict comprehension {d: v[0] for d, v in X.items() if d != BUILD_ONLY} evaluated as filter+map of the mapping (comprehension semantics, not proved by the engine)')
+                return [(st, e.alloc(st, RT, R))]
+        return base_comp(e, st, node, kind) if base_comp else None
+    reg.comp_hook = comp
+    def post(o, n, r):
+        k = z3.Const(fresh_name('k'), KZ); L, R_ = o.left.z, o.right.z
+        pres = lambda D_, kk: z3.Not(opt_is_none(OV, z3.Select(D_, kk)))
+        same = z3.ForAll([k], z3.Implies(k != K_BO, z3.And(pres(L, k) == pres(R_, k), z3.Implies(pres(L, k), FIRST(opt_val(OV, z3.Select(L, k))) == FIRST(opt_val(OV, z3.Select(R_, k)))))))
+        return r.z == same
+    def vid_lemma(o, n, r):
+        L, R_ = o.left.z, o.right.z
+        pres = lambda D_: z3.Not(opt_is_none(OV, z3.Select(D_, K_VID)))
+        differs = z3.Or(pres(L) != pres(R_), z3.And(pres(L), FIRST(opt_val(OV, z3.Select(L, K_VID))) != FIRST(opt_val(OV, z3.Select(R_, K_VID)))))
+        return z3.Implies(differs, z3.Not(r.z))
+    u = Unit(F, 'compareDirectoryState', {'left': DT, 'right': DT}, 'C01', result=BOOL,
+             ensures=[('equal-exactly-if-all-keys-but-build-only-agree-on-their-digest', post), ('a-changed-checkout-variant-id-is-a-difference', vid_lemma)],
+             note='"recipe changed" decision of checkout steps')
+    u.dyn = False
+    return [u]
